@@ -14,14 +14,14 @@ SHARD_TIMEOUT = {'quick': 300, 'thorough': 1500}
 CFG = {
     'monitors': 'identity,index'.split(','),
     'deciding_counters': ['identity.registered'],
-    'n': {'quick': 150, 'thorough': 1000},
+    'n': {'quick': 500, 'thorough': 1000},
     'ops': {'quick': 30, 'thorough': 60},
 }
 
 
 SMALL = {
     'templates': ['m2m', 'composite', 'inherit', 'o2o_opt', 'pkref'],
-    'budget': {'quick': 9000, 'thorough': 160000},
+    'budget': {'quick': 24000, 'thorough': 160000},
     'monitors': CFG['monitors'],
 }
 
